@@ -440,7 +440,7 @@ func TestC48(t *testing.T) {
 		}
 	}
 	for _, c := range vt.TLCCases(t) {
-		add(c, 100)
+		add(c, 40)
 	}
 	flush()
 	if p := os.Getenv("VERIF_CASES_REWRITEMCLABELS"); p != "" {
@@ -449,7 +449,7 @@ func TestC48(t *testing.T) {
 			t.Fatal(err)
 		}
 		for _, c := range cs {
-			add(c, 100)
+			add(c, 40)
 		}
 	}
 	flush()
